@@ -80,7 +80,11 @@ Model corrections forced by the real code (each found by running a predicted cas
     a boundary cut is a miss there - a finding I had written down for failing store commands did not exist and was withdrawn;
   * the store state is measured block by block (PAX records of non-ASCII names broke the first measurement).
 
-Unchanged tree: exit 0, 18/18, 263 cases, 0 disagreements, oracle failures only in the listed classes; the race finding is
+FIX PHASE.  /repo f96953b (HTTP writer: w.CloseWithError(err); return) and c251f14 (command cache writer: no tw.Close() after bailing
+out) repair all three findings; on /repo now: exit 0, 22/22, 263 cases, 0 disagreements, oracle_fail = 0.  Re-introductions (git revert
+on scratch copies): f96953b -> exit 1, VIOLATION class http-store-commits-after-read-error, 21/22; c251f14 -> exit 1, VIOLATION class
+cmd-naive-store-keeps-partial-archive-after-read-error, 20/22.  Thorough: exit 0, 18/18 at the time, 899 cases, 0 disagreements, 6 min 46 s.
+
+Unchanged tree before the fix phase: exit 0, 18/18, 263 cases, 0 disagreements, oracle failures only in the listed classes; the race finding is
 `NOT reproduced` on most runs.  Quick wall 214 s .. 1678 s for 3-4 CPU-min (shared lake lock; load average 40-150 on 16 cores).
-Thorough tier NOT run yet.
 """
